@@ -68,6 +68,7 @@ func (d *cfgDeco) Watch(ctx context.Context, ch chan<- configapi.ConfigurationEv
 		for ev := range mid {
 			d.inc.w.logEvent(&Event{Kind: "watch.cfg", Target: string(ev.Configuration.TargetID), Inc: d.inc.N, Task: "watcher:" + owner,
 				Note: fmt.Sprintf("%s %s v%d", ev.Type, ev.Configuration.ID, ev.Configuration.Version)})
+			d.inc.deliveryDelay()
 			ch <- ev
 		}
 		close(ch)
@@ -125,6 +126,7 @@ func (d *propDeco) Watch(ctx context.Context, ch chan<- configapi.ProposalEvent,
 		for ev := range mid {
 			d.inc.w.logEvent(&Event{Kind: "watch.prop", Target: string(ev.Proposal.TargetID), Inc: d.inc.N, Task: "watcher:" + owner,
 				Note: fmt.Sprintf("%s %s v%d", ev.Type, ev.Proposal.ID, ev.Proposal.Version)})
+			d.inc.deliveryDelay()
 			ch <- ev
 		}
 		close(ch)
@@ -196,6 +198,7 @@ func (d *txDeco) Watch(ctx context.Context, ch chan<- configapi.TransactionEvent
 		for ev := range mid {
 			d.inc.w.logEvent(&Event{Kind: "watch.tx", Inc: d.inc.N, Task: "watcher:" + owner,
 				Note: fmt.Sprintf("%s tx%d v%d %s", ev.Type, ev.Transaction.Index, ev.Transaction.Version, ev.Transaction.Status.State)})
+			d.inc.deliveryDelay()
 			ch <- ev
 		}
 		close(ch)
